@@ -20,6 +20,20 @@ def is_svd_site(t):
     return False
 
 
+# the decomposition entry points that take a convergence tolerance and an iteration limit (…, eps, max_niter)
+SVD_TUNABLE = {"try_svd", "try_svd_unordered", "try_new", "try_new_unordered"}
+
+
+def const_uint(t):
+    if isinstance(t, tuple) and t and t[0] == "const":
+        for x in t[1:]:
+            if isinstance(x, int) and not isinstance(x, bool):
+                return x
+            if isinstance(x, str) and x.strip().split("_")[0].isdigit():
+                return int(x.strip().split("_")[0])
+    return None
+
+
 def forall_finite_target(c):
     """('forall', iterator, cond, truth) that says every element of a matrix is finite -> matrix"""
     _, it, cond, truth = c
@@ -121,12 +135,27 @@ def rule_svd_finite(F, ev_unused, R, config, rule="R-SVD-FINITE"):
                         conds.add(term)    # loop summary established inside a helper whose success is tested here
                 for fa in foralls_at(g, bi):
                     conds.add(fa)
-                recs = [(("call", "", None, (arg,), None), frozenset(conds))]
+                allargs = tuple(ev.operand(env, a_, (bi, None)) for a_ in t["args"])
+                recs = [(("call", "", None, allargs, None), frozenset(conds))]
             if not recs:
                 R.bad(rule, config, b.key, inst,
                       "SVD call site is not reached through a modelled adapter: cannot establish that its argument was checked (undetermined)",
                       t.get("span"))
                 continue
+            if t["fn"]["name"] in SVD_TUNABLE:
+                # termination: nalgebra iterates until the off-diagonal falls below eps·scale, at most max_niter times
+                # (0 = no limit). `svd`/`SVD::new` use the library's own tolerance; a site that passes its own must
+                # not let a caller-controlled value (the truncation epsilon, say: 0 is a legal value there) decide
+                # convergence without an iteration limit
+                for ct, _c in recs:
+                    eps, lim = ct[3][-2], ct[3][-1]
+                    n = const_uint(lim)
+                    okb = (n is not None and n > 0) or (n == 0 and not input_dependent(eps))
+                    R.add(rule, config, b.key, "svd-iteration-bounded" + fl, okb,
+                          "iteration limit %s, tolerance %s" % (short(lim)[:40], short(eps)[:60]) if okb else
+                          "the decomposition is run with tolerance `%s` and iteration limit `%s`: an input-dependent tolerance (0 or NaN are "
+                          "possible) without a positive constant limit means the QR iteration need not terminate" % (short(eps)[:100], short(lim)[:40]),
+                          t.get("span"))
             for ct, conds in recs:
                 arg = ct[3][0]
                 ok = False
